@@ -18,7 +18,7 @@ COMPONENTS = E1_COMPONENTS
 ASSUMPTIONS = E1_ASSUMPTIONS + [
     "index titles: the path separator of the relative directory may be kept or replaced by the configured separator "
     "(the statement does not choose); both are accepted"]
-PROBES = ["other_input_first", "name_or_prefix_with_backslash", "directory_named_CMakeFiles", "rerun_over_longer_stale_indexes", "cwd_inside_tree", "dir_pattern_excluded", "dir_auto_excluded", "dir_emptied_by_exclusion", "depth_ge_2_recursive",
+PROBES = ["rerun_with_output_inside_input", "other_input_first", "name_or_prefix_with_backslash", "directory_named_CMakeFiles", "rerun_over_longer_stale_indexes", "cwd_inside_tree", "dir_pattern_excluded", "dir_auto_excluded", "dir_emptied_by_exclusion", "depth_ge_2_recursive",
           "sep_not_dot", "nested_below_dir_without_cmake", "nonrecursive", "prefix_default", "prefix_explicit"]
 
 
@@ -48,7 +48,7 @@ def title_ok(title, prefix, sep, reld):
     return title in (prefix + sep + reld, prefix + sep + reld.replace("/", sep))
 
 
-def check_tree(spec, pages, tree, walk, where, ctx=None):
+def check_tree(spec, pages, tree, walk, where, ctx=None, closure_only=False):
     """Closure / completeness oracle over one generated output tree (dict relpath -> text)."""
     viols = []
     prefix = c13.effective_prefix(spec)
@@ -97,7 +97,7 @@ def check_tree(spec, pages, tree, walk, where, ctx=None):
                 cause = "dir-emptied-by-exclusion"
             viols.append(viol("orphan-page", f"{where}: not reachable from the top index.rst: {orphans[:6]}", cause=cause))
     # exact entry sets where the reference walk is unambiguous
-    if not walk.ambiguous:
+    if not walk.ambiguous and not closure_only:
         pdirs = set(walk.dirs)
         for d in walk.dirs:
             k = posixpath.join(d, "index.rst")
@@ -163,6 +163,23 @@ def evaluate(spec, ctx):
             viols += check_tree(spec, pages, tree, walk, f"variant {vi}", ctx)
             if viols:
                 break
+            if vi == 0 and spec["out_kind"] == "nested" and pages:
+                # the same command again while the output directory of the first run sits inside the input tree (with
+                # auto-exclusion off the walk now meets it): whatever is written about it, every index must stay closed
+                # and every page reachable.  Entry sets are not compared (what the output directory itself counts as is
+                # not stated).
+                overlay, argv = c13.variant_setup(spec, var)
+                r4 = core.run_call(base, {"cwd": var["cwd"], "argv": argv, "listing_key": var["listing_key"],
+                                          "listing_explicit": var["listing_explicit"]})
+                ctx.note_call(r4)
+                ctx.probes["rerun_with_output_inside_input"] += 1
+                if r4.status != 0:
+                    viols.append(viol("run-failed", f"re-run with the output directory inside the input: status {r4.status} exc {r4.exc}"))
+                    break
+                viols += check_tree(spec, core.read_tree(base, spec["out"]), tree, walk,
+                                    "re-run with the output directory of the first run inside the input tree", ctx, closure_only=True)
+                if viols:
+                    break
             if vi == 0 and spec["out_kind"] != "nested" and pages:
                 # the same run again over an output directory whose index files are older, LONGER versions (a bigger
                 # tree was documented there before) stamped in the future: the indexes must come out closed again
@@ -219,6 +236,7 @@ MANIFEST = {
                   "the directory with the prefix, and (where the reference walk is unambiguous) exact entry sets.  Worlds are "
                   "biased towards directories that are excluded, auto-excluded, emptied by exclusion or nested below directories "
                   "without CMake files, with separators other than '.', working directories inside the tree, and a re-run over older, "
-                  "longer, future-stamped index files left in the output directory.",
+                  "longer, future-stamped index files left in the output directory, a run with another directory documented first into the "
+                  "same output directory, and a re-run with the first run's output directory inside the input tree (closure only).",
     "level_note": "trusted: the line-based index reader (relies only on the format C14/C20 state), reference walk, tmpfs",
 }
